@@ -41,8 +41,10 @@ def _step_iv(state, op, t=None):
     if op[0] == "ins":
         _, a, b, mode, rp = op
         new = (a, b, "n")
-        st, r, out = call(t.insertEntry, Interval(*new), mode, rp)
-        tag = f"insertEntry({new},{mode!r},{rp!r}) on {entries} span ({lo},{hi})"
+        # the public API accepts Interval objects and plain tuples; 'replace' uses a tuple with a padded label
+        arg = (a, b, " n ") if mode == "replace" else Interval(*new)
+        st, r, out = call(t.insertEntry, arg, mode, rp)
+        tag = f"insertEntry({tuple(arg)},{mode!r},{rp!r}) on {entries} span ({lo},{hi})"
         after = canon(t)
         if a >= b:
             if st != "exc" or not isinstance(r, PE):
@@ -132,7 +134,7 @@ def _step_pt(state, op, t=None):
     if op[0] == "ins":
         _, a, mode, rp = op
         new = (a, "n")
-        st, r, out = call(t.insertEntry, Point(*new), mode, rp)
+        st, r, out = call(t.insertEntry, (a, " n\n") if mode == "replace" else Point(*new), mode, rp)
         tag = f"PointTier.insertEntry({new},{mode!r},{rp!r}) on {entries} span ({lo},{hi})"
         after = canon(t)
         try:
